@@ -12,6 +12,7 @@ pub mod history;
 pub mod inputs;
 pub mod shell;
 pub mod specgen;
+pub mod sys;
 
 pub const DEFAULT_SEED: u64 = 20261004;
 
@@ -65,7 +66,19 @@ pub fn gen_case(prop: &str, seed: u64, index: u64, tier: Tier) -> Case {
     case
 }
 
+/// Which case indices are syscall-level fault cases (engines/sys.rs), per property.
+pub fn is_sys_index(prop: &str, index: u64) -> bool {
+    match prop {
+        "C08" => index % 40 == 17,
+        "C04" => index % 40 == 17,
+        _ => false,
+    }
+}
+
 fn gen_case_inner(prop: &str, seed: u64, index: u64, tier: Tier) -> Case {
+    if is_sys_index(prop, index) {
+        return sys::gen(prop, seed, index, tier);
+    }
     match prop {
         "C02" | "C03" | "C05" => graph::gen(prop, seed, index, tier),
         "C06" | "C07" | "C08" | "C09" | "C10" => history::gen(prop, seed, index, tier),
@@ -79,6 +92,9 @@ fn gen_case_inner(prop: &str, seed: u64, index: u64, tier: Tier) -> Case {
 }
 
 pub fn run_case(case: &Case, ctx: &mut Ctx) -> CaseOutcome {
+    if case.variant.starts_with("sys-") {
+        return sys::run(case, ctx);
+    }
     match case.property.as_str() {
         "C02" | "C03" | "C05" => graph::run(case, ctx),
         "C06" | "C07" | "C08" | "C09" | "C10" => history::run(case, ctx),
